@@ -319,7 +319,8 @@ Hbitwrite(int32 bitid, int count, uint32 data)
 
     /* change bitfile modes if necessary */
     if (bitfile_rec->mode == 'r')
-        HIread2write(bitfile_rec);
+        if (HIread2write(bitfile_rec) == FAIL)
+            HRETURN_ERROR(DFE_INTERNAL, FAIL);
 
     data &= maskl[count];
 
@@ -826,11 +827,33 @@ HIget_bitfile_rec(void)
 static int
 HIread2write(bitrec_t *bitfile_rec)
 {
+    int32 pos; /* offset of the byte that takes the next bit written */
+    int   bit; /* number of bits of that byte already read */
 
-    bitfile_rec->block_offset = (int32)LONG_MIN; /* set to bogus value */
-    bitfile_rec->mode         = 'w';             /* change to write mode */
-    if (Hbitseek(bitfile_rec->bit_id, bitfile_rec->byte_offset, ((int)BITNUM - bitfile_rec->count)) == FAIL)
+    /* bytep is past every byte fetched so far; a byte that was only partly read is the one to write into */
+    pos = bitfile_rec->block_offset + (int32)(bitfile_rec->bytep - bitfile_rec->bytea);
+    bit = 0;
+    if (bitfile_rec->count > 0) {
+        pos--;
+        bit = (int)BITNUM - bitfile_rec->count;
+    }
+
+    /* position as a reader (a reader has nothing to flush), then turn the read position into a write position */
+    if (Hbitseek(bitfile_rec->bit_id, pos, bit) == FAIL)
         HRETURN_ERROR(DFE_INTERNAL, FAIL);
+    if (bit > 0) { /* step back onto the partly read byte and keep the bits already read */
+        bitfile_rec->bytep--;
+        bitfile_rec->bits &= (uint8)(maskc[bit] << bitfile_rec->count);
+    }
+    else {
+        bitfile_rec->count = BITNUM;
+        bitfile_rec->bits  = 0;
+    }
+    bitfile_rec->bytez = bitfile_rec->bytea + BITBUF_SIZE;
+    bitfile_rec->mode  = 'w';
+    /* the buffered block is written back from its beginning */
+    if (Hseek(bitfile_rec->acc_id, bitfile_rec->block_offset, DF_START) == FAIL)
+        HRETURN_ERROR(DFE_SEEKERROR, FAIL);
     return SUCCEED;
 } /* HIread2write */
 
